@@ -391,16 +391,13 @@ theorem mapM'_forall2 {α β : Type} (g : α → Option β) : ∀ (l : List α) 
       exact .cons hy (ih ys' hys)
     · cases h
 
-/-- BestFragments does not panic when the locations are usable (filtered by the tree or by hypothesis) -/
-theorem bestFragments_np (v : Variant) (fm : Fmt) (orig : Bytes) (fsize num : Int) (locs : List TermLocation)
-    (hf : 1 ≤ fsize) (hall : v.locGuard = true ∨ ∀ l ∈ locs, 0 ≤ l.start ∧ l.start ≤ l.stop) :
-    ∃ outs, bestFragments v fm orig fsize num locs = some outs := by
-  have hord : v.locGuard = true ∨ ∀ l ∈ orderTermLocations locs, 0 ≤ l.start ∧ l.start ≤ l.stop := by
-    rcases hall with h | h
-    · exact Or.inl h
-    · exact Or.inr (fun l hl => h l (mem_orderTermLocations.mp hl))
-  obtain ⟨frags, hfr, hb⟩ := fragment_np v orig fsize hf (orderTermLocations locs) hord
-  unfold bestFragments bestSelection
+/-- BestFragments does not panic when the locations are usable (filtered by the tree or by hypothesis),
+whatever order OrderTermLocations returned them in -/
+theorem bestFragmentsOrd_np (v : Variant) (fm : Fmt) (orig : Bytes) (fsize num : Int) (locs ot : List TermLocation)
+    (hf : 1 ≤ fsize) (hord : v.locGuard = true ∨ ∀ l ∈ ot, 0 ≤ l.start ∧ l.start ≤ l.stop) :
+    ∃ outs, bestFragmentsOrd v fm orig fsize num locs ot = some outs := by
+  obtain ⟨frags, hfr, hb⟩ := fragment_np v orig fsize hf ot hord
+  unfold bestFragmentsOrd bestSelectionOrd
   simp only [hfr, Option.map_some]
   apply mapM'_some
   intro b hbm
@@ -409,22 +406,22 @@ theorem bestFragments_np (v : Variant) (fm : Fmt) (orig : Bytes) (fsize num : In
   obtain ⟨f, hfm, e⟩ := this
   have hbf := hb f hfm
   subst e
-  have hm : v.locGuard = true ∨ ∀ tl, some tl ∈ mergeOverlapping (orderTermLocations locs) → tl.start ≤ tl.stop := by
+  have hm : v.locGuard = true ∨ ∀ tl, some tl ∈ mergeOverlapping v.mergeMax ot → tl.start ≤ tl.stop := by
     rcases hord with h | h
     · exact Or.inl h
     · exact Or.inr (fun tl ht => mergeOverlapping_le (fun l hl => (h l hl).2) ht)
-  obtain ⟨s, hs⟩ := formatLoop_np fm v.locGuard orig f.stop hbf.2.2 (mergeOverlapping (orderTermLocations locs)) f.start
+  obtain ⟨s, hs⟩ := formatLoop_np fm v.locGuard orig f.stop hbf.2.2 (mergeOverlapping v.mergeMax ot) f.start
     hm hbf.1 hbf.2.1
   simp only [render, format, hs, Option.map_some]
   exact ⟨_, rfl⟩
 
 theorem bestFragments_faithful_aux {fm : Fmt} {strip : Bytes → Bytes} {Q : Byte → Prop} (ok : StripOK fm strip Q)
     (v : Variant) (orig : Bytes) (hQ : ∀ x ∈ orig, Q x) (fsize num : Int) (locs : List TermLocation) (outs : List Bytes)
-    (h : bestFragments v fm orig fsize num locs = some outs) :
-    ∃ best, bestSelection v orig fsize num locs = some best ∧
+    (ot : List TermLocation) (h : bestFragmentsOrd v fm orig fsize num locs ot = some outs) :
+    ∃ best, bestSelectionOrd v orig fsize num locs ot = some best ∧
       Forall2 (fun f out => ∃ s, out = (if f.start ≠ 0 then separator else []) ++ s ++
           (if f.stop ≠ (orig.length : Int) then separator else []) ∧ slice orig f.start f.stop = some (strip s)) best outs := by
-  unfold bestFragments at h
+  unfold bestFragmentsOrd at h
   split at h
   · cases h
   · rename_i best hb
@@ -432,19 +429,19 @@ theorem bestFragments_faithful_aux {fm : Fmt} {strip : Bytes → Bytes} {Q : Byt
     refine (mapM'_forall2 _ best outs h).imp ?_
     intro f out _ hr
     unfold render at hr
-    cases hf : format v fm orig f (mergeOverlapping (orderTermLocations locs)) with
+    cases hf : format v fm orig f (mergeOverlapping v.mergeMax ot) with
     | none => simp [hf] at hr
     | some s =>
       simp only [hf, Option.map_some, Option.some.injEq] at hr
       exact ⟨s, hr.symm, formatLoop_strip ok v.locGuard orig hQ f.stop _ f.start s hf⟩
 
-theorem bestSelection_spec (v : Variant) (orig : Bytes) (fsize num : Int) (locs : List TermLocation)
-    (best : List Fragment) (h : bestSelection v orig fsize num locs = some best) :
+theorem bestSelection_spec (v : Variant) (orig : Bytes) (fsize num : Int) (locs ot : List TermLocation)
+    (best : List Fragment) (h : bestSelectionOrd v orig fsize num locs ot = some best) :
     (best.length : Int) ≤ max num 0 ∧ best.Pairwise (fun a b => a.overlaps b = false) ∧
-    ∃ frags, fragment v orig fsize (orderTermLocations locs) = some frags ∧
+    ∃ frags, fragment v orig fsize ot = some frags ∧
       ∀ b ∈ best, ∃ f ∈ frags, b = { f with score := scoreOf locs f } := by
-  unfold bestSelection at h
-  cases hf : fragment v orig fsize (orderTermLocations locs) with
+  unfold bestSelectionOrd at h
+  cases hf : fragment v orig fsize ot with
   | none => simp [hf] at h
   | some frags =>
     simp only [hf, Option.map_some, Option.some.injEq] at h
@@ -457,14 +454,14 @@ theorem bestSelection_spec (v : Variant) (orig : Bytes) (fsize num : Int) (locs 
     obtain ⟨f, hf, e⟩ := this
     exact ⟨f, hf, e.symm⟩
 
-theorem bestFragments_count (v : Variant) (fm : Fmt) (orig : Bytes) (fsize num : Int) (locs : List TermLocation)
-    (outs : List Bytes) (h : bestFragments v fm orig fsize num locs = some outs) : (outs.length : Int) ≤ max num 0 := by
-  unfold bestFragments at h
+theorem bestFragments_count (v : Variant) (fm : Fmt) (orig : Bytes) (fsize num : Int) (locs ot : List TermLocation)
+    (outs : List Bytes) (h : bestFragmentsOrd v fm orig fsize num locs ot = some outs) : (outs.length : Int) ≤ max num 0 := by
+  unfold bestFragmentsOrd at h
   split at h
   · cases h
   · rename_i best hb
     have := (mapM'_forall2 _ best outs h).length_eq
-    have := (bestSelection_spec v orig fsize num locs best hb).1
+    have := (bestSelection_spec v orig fsize num locs ot best hb).1
     omega
 
 theorem overlaps_false_iff (a b : Fragment) (ha : a.start < a.stop) (hb : b.start < b.stop) :
@@ -473,9 +470,9 @@ theorem overlaps_false_iff (a b : Fragment) (ha : a.start < a.stop) (hb : b.star
   by_cases h1 : b.start ≥ a.start ∧ b.start < a.stop <;>
     by_cases h2 : a.start ≥ b.start ∧ a.start < b.stop <;> simp [h1, h2] <;> omega
 
-theorem marks_term_occurrences_aux (lg : Bool) (fstart fend : Int) (ot : List TermLocation) (hd : disjointLocs ot = true)
+theorem marks_term_occurrences_aux (mx lg : Bool) (fstart fend : Int) (ot : List TermLocation) (hd : disjointLocs ot = true)
     (hne : ∀ l ∈ ot, l.start < l.stop) :
-    ∀ m ∈ marksLoop lg fend (mergeOverlapping ot) fstart, ∃ l ∈ ot, m = (l.start, l.stop) ∧ l.stop ≤ fend := by
+    ∀ m ∈ marksLoop lg fend (mergeOverlapping mx ot) fstart, ∃ l ∈ ot, m = (l.start, l.stop) ∧ l.stop ≤ fend := by
   rw [mergeOverlapping_of_disjoint hd hne]
   intro m hm
   obtain ⟨tl, hmem, he, hle⟩ := marksLoop_mem' lg fend _ fstart m hm
